@@ -1,7 +1,7 @@
 """C13 - path operations compose like a path algebra (decided part: encoding and flow)."""
 from ..rules import flow, order
 from ..rules import shape_rules as sr
-from ..rules.kindrules import k1, k2_k3, k_mix, k_req, make_kinds
+from ..rules.kindrules import k1, k2_k3, k_mix, k_req, k_roundtrip, make_kinds
 from ..shape import Shapes
 
 META = {"note": "decides that new segment text is quoted exactly once and existing encoded path text is never re-quoted, that "
@@ -22,6 +22,7 @@ def run(ctx):
     k2_k3(ctx, K)
     k_req(ctx, K)
     k_mix(ctx, K)
+    k_roundtrip(ctx, K)
     flow.f1(ctx, PATH_METHODS)
     same_helper(ctx)
     order.flag_accumulates(ctx)     # joinpath(a, b) == joinpath(a).joinpath(b): every argument's dots are seen
